@@ -273,6 +273,20 @@ impl Check for C16 {
                     fail(&mut out, "escape", format!("name {:?} ({}): effect outside the single expected path: {} {:?}", name, op.name(), c.0, c.1));
                 }
             }
+            // "every accepted name denotes exactly one regular file": a call
+            // that re-stamps, re-modes, renames onto or unlinks a *directory* was
+            // made on a name that denotes one (e.g. `sub/`, `sub/.`)
+            // (a plain one-component name that collides with a directory the
+            // application itself put there is the application's business)
+            if name.contains('/') {
+                let fs_after = w.fs_clone();
+                for r in trace.iter().filter(|r| r.lib && r.err == 0 && matches!(r.kind, K::Utimens | K::Chmod)) {
+                    let is_dir = fs_after.inodes.get(&r.ino).map(|i| i.is_dir()).unwrap_or(false);
+                    if is_dir {
+                        fail(&mut out, "escape", format!("name {:?} ({}): the call changed a directory, not a regular file: {}", name, op.name(), r.short()));
+                    }
+                }
+            }
             let inv = w.inv.lock().unwrap();
             for (n, msg) in inv.violations[viol_before..].iter() {
                 if *n == "confined" || *n == "readonly" {
